@@ -386,20 +386,19 @@ Proof. intros A a b n H. subst n. rewrite firstn_app, Nat.sub_diag, firstn_all. 
 Lemma skipn_app_exact : forall A (a b : list A) n, length a = n -> skipn n (a ++ b) = b.
 Proof. intros A a b n H. subst n. rewrite skipn_app, Nat.sub_diag, skipn_all. reflexivity. Qed.
 
-Definition guid_text (g : guid) : bytes :=
-  hex_bytes (be_bytes 4 (g1 g)) ++ [c_dash] ++ hex_bytes (be_bytes 2 (g2 g)) ++ [c_dash] ++ hex_bytes (be_bytes 2 (g3 g)) ++ [c_dash]
-  ++ hex_bytes (firstn 2 (g4 g)) ++ [c_dash] ++ hex_bytes (skipn 2 (g4 g)).
+Lemma pad8_length : forall l, length (pad8 l) = 8%nat.
+Proof. intro l. unfold pad8. rewrite firstn_length, app_length, repeat_length. lia. Qed.
 
-Lemma wf_guid_inv : forall g, wf_guid g = true -> g1 g < 4294967296 /\ g2 g < 65536 /\ g3 g < 65536 /\ length (g4 g) = 8%nat.
-Proof.
-  intros g H. unfold wf_guid in H. rewrite !andb_true_iff in H. destruct H as [[[H1 H2] H3] H4]. apply Nat.eqb_eq in H4. repeat split; [lia|lia|lia|exact H4].
-Qed.
+Lemma pad8_idem : forall l, pad8 (pad8 l) = pad8 l.
+Proof. intro l. unfold pad8 at 1. apply firstn_app_exact. apply pad8_length. Qed.
 
-Lemma guid_string_wf : forall g, wf_guid g = true -> guid_string g = Ok (guid_text g).
-Proof.
-  intros g H. destruct (wf_guid_inv g H) as (_ & _ & _ & H4). unfold guid_string, guid_text, hex_padded.
-  rewrite H4. cbn [Nat.ltb Nat.leb]. rewrite !hex_bytes_length, firstn_length, skipn_length, H4. reflexivity.
-Qed.
+Definition norm_guid (g : guid) : guid := {| g1 := g1 g; g2 := g2 g; g3 := g3 g; g4 := pad8 (g4 g) |}.
+
+Lemma wf_guid_inv : forall g, wf_guid g = true -> g1 g < 4294967296 /\ g2 g < 65536 /\ g3 g < 65536.
+Proof. intros g H. unfold wf_guid in H. lia. Qed.
+
+Lemma guid_text_norm : forall g, guid_text (norm_guid g) = guid_text g.
+Proof. intro g. unfold guid_text, norm_guid. cbn [g1 g2 g3 g4]. rewrite pad8_idem. reflexivity. Qed.
 
 Lemma guid_text_no_semi : forall g, no_semi (guid_text g).
 Proof.
@@ -412,38 +411,38 @@ Proof.
   intro g. unfold guid_text. intro H. apply (f_equal (@length byte)) in H. rewrite !app_length, !hex_bytes_length, be_bytes_length in H. cbn in H. lia.
 Qed.
 
-Lemma new_guid_text : forall g, wf_guid g = true -> new_guid (guid_text g) = Some g.
+Lemma new_guid_text : forall g, wf_guid g = true -> new_guid (guid_text g) = Some (norm_guid g).
 Proof.
-  intros g H. destruct (wf_guid_inv g H) as (H1 & H2 & H3 & H4). unfold new_guid.
-  assert (E : remove_dashes (guid_text g) = hex_bytes (be_bytes 4 (g1 g) ++ be_bytes 2 (g2 g) ++ be_bytes 2 (g3 g) ++ g4 g)).
-  { unfold guid_text, remove_dashes. rewrite !filter_app. fold (remove_dashes (hex_bytes (be_bytes 4 (g1 g)))).
+  intros g H. destruct (wf_guid_inv g H) as (H1 & H2 & H3). unfold new_guid. pose proof (pad8_length (g4 g)) as H4.
+  set (d := pad8 (g4 g)) in *.
+  assert (E : remove_dashes (guid_text g) = hex_bytes (be_bytes 4 (g1 g) ++ be_bytes 2 (g2 g) ++ be_bytes 2 (g3 g) ++ d)).
+  { unfold guid_text, remove_dashes. fold d. rewrite !filter_app. fold (remove_dashes (hex_bytes (be_bytes 4 (g1 g)))).
     fold (remove_dashes (hex_bytes (be_bytes 2 (g2 g)))). fold (remove_dashes (hex_bytes (be_bytes 2 (g3 g)))).
-    fold (remove_dashes (hex_bytes (firstn 2 (g4 g)))). fold (remove_dashes (hex_bytes (skipn 2 (g4 g)))).
+    fold (remove_dashes (hex_bytes (firstn 2 d))). fold (remove_dashes (hex_bytes (skipn 2 d))).
     rewrite !remove_dashes_hex. cbn [filter]. change (Byte.eqb c_dash c_dash) with true. cbn [negb app].
     rewrite <- !hex_bytes_app. rewrite firstn_skipn. reflexivity. }
   rewrite E, unhex_hex. rewrite !app_length, !be_bytes_length, H4. cbn [Nat.add Nat.eqb].
   rewrite (firstn_app_exact _ _ _ 4%nat (be_bytes_length 4 _)).
   rewrite (skipn_app_exact _ _ _ 4%nat (be_bytes_length 4 _)).
   rewrite (firstn_app_exact _ _ _ 2%nat (be_bytes_length 2 _)).
-  replace (be_bytes 4 (g1 g) ++ be_bytes 2 (g2 g) ++ be_bytes 2 (g3 g) ++ g4 g)
-    with ((be_bytes 4 (g1 g) ++ be_bytes 2 (g2 g)) ++ be_bytes 2 (g3 g) ++ g4 g) by (rewrite <- app_assoc; reflexivity).
+  replace (be_bytes 4 (g1 g) ++ be_bytes 2 (g2 g) ++ be_bytes 2 (g3 g) ++ d)
+    with ((be_bytes 4 (g1 g) ++ be_bytes 2 (g2 g)) ++ be_bytes 2 (g3 g) ++ d) by (rewrite <- app_assoc; reflexivity).
   rewrite (skipn_app_exact _ (be_bytes 4 (g1 g) ++ be_bytes 2 (g2 g)) _ 6%nat) by (rewrite app_length, !be_bytes_length; reflexivity).
   rewrite (firstn_app_exact _ _ _ 2%nat (be_bytes_length 2 _)).
-  replace ((be_bytes 4 (g1 g) ++ be_bytes 2 (g2 g)) ++ be_bytes 2 (g3 g) ++ g4 g)
-    with ((be_bytes 4 (g1 g) ++ be_bytes 2 (g2 g) ++ be_bytes 2 (g3 g)) ++ g4 g) by (rewrite <- !app_assoc; reflexivity).
+  replace ((be_bytes 4 (g1 g) ++ be_bytes 2 (g2 g)) ++ be_bytes 2 (g3 g) ++ d)
+    with ((be_bytes 4 (g1 g) ++ be_bytes 2 (g2 g) ++ be_bytes 2 (g3 g)) ++ d) by (rewrite <- !app_assoc; reflexivity).
   rewrite (skipn_app_exact _ (be_bytes 4 (g1 g) ++ be_bytes 2 (g2 g) ++ be_bytes 2 (g3 g)) _ 8%nat) by (rewrite !app_length, !be_bytes_length; reflexivity).
   rewrite (be_val_bytes 4) by (change (256 ^ N.of_nat 4) with 4294967296; exact H1).
   rewrite !(be_val_bytes 2) by (change (256 ^ N.of_nat 2) with 65536; assumption).
-  destruct g; reflexivity.
+  reflexivity.
 Qed.
 
 Lemma parse_ident_g : forall ns nsu g, wf_guid g = true ->
-  parse_ident ns nsu (s_g ++ guid_text g) = Ok (new_expanded (NGuid ns (Some g)) nsu).
+  parse_ident ns nsu (s_g ++ guid_text g) = Ok (new_expanded (NGuid ns (Some (norm_guid g))) nsu).
 Proof.
   intros ns nsu g H. unfold parse_ident. change (has_prefix (s_g ++ guid_text g) s_i) with false.
   change (has_prefix (s_g ++ guid_text g) s_s) with false. rewrite (has_prefix_app s_g).
-  change (drop 2 (s_g ++ guid_text g)) with (guid_text g). rewrite (new_guid_text g H), (guid_string_wf g H).
-  pose proof (guid_text_nonempty g). destruct (guid_text g); [congruence | reflexivity].
+  change (drop 2 (s_g ++ guid_text g)) with (guid_text g). rewrite (new_guid_text g H). reflexivity.
 Qed.
 
 (* ====================== parse (render n) ====================== *)
@@ -500,7 +499,7 @@ Proof.
       rewrite parse_expanded_ns by lia. apply parse_ident_s.
   - (* guid *)
     destruct g as [g|]; [|discriminate]. apply andb_true_iff in Hwf. destruct Hwf as [H1 H2].
-    cbn [render_gen string_id]. rewrite (guid_string_wf g H2).
+    cbn [render_gen string_id]. unfold guid_string.
     eexists. split; [reflexivity|]. apply parse_of_expanded. cbn [canon].
     rewrite parse_with_ns; [| lia | discriminate | apply tag_no_semi; [repeat constructor; discriminate | apply guid_text_no_semi]].
     apply parse_ident_g. exact H2.
@@ -524,7 +523,8 @@ Qed.
 
 Lemma node_of_canon : forall n, wf_id n = true -> node_of (canon n) = node_of n.
 Proof.
-  intros n H. destruct n as [ns id|ns id|ns id|ns s|ns g|ns b|t]; cbn [canon]; try reflexivity; rewrite node_of_smallest; try reflexivity.
+  intros n H. destruct n as [ns id|ns id|ns id|ns s|ns g|ns b|t]; cbn [canon]; try reflexivity; try (rewrite node_of_smallest; reflexivity).
+  destruct g as [g|]; [|reflexivity]. cbn [node_of g1 g2 g3 g4]. rewrite pad8_idem. reflexivity.
 Qed.
 
 (* the text form is a function of the node *)
@@ -544,7 +544,8 @@ Proof.
   - reflexivity.
   - reflexivity.
   - reflexivity.
-  - destruct g as [g|]; [|discriminate]. destruct g. reflexivity.
+  - destruct g as [g|]; [|discriminate]. cbn [node_of render_node]. unfold render. cbn [render_gen string_id]. unfold guid_string.
+    rewrite <- (guid_text_norm g). reflexivity.
   - reflexivity.
 Qed.
 
@@ -576,7 +577,8 @@ Qed.
 
 Lemma wf_canon : forall n, wf_id n = true -> wf_id (canon n) = true.
 Proof.
-  intros n H. destruct n as [ns id|ns id|ns id|ns s|ns g|ns b|t]; cbn [canon]; try exact H; cbn [wf_id] in H; apply wf_smallest; lia.
+  intros n H. destruct n as [ns id|ns id|ns id|ns s|ns g|ns b|t]; cbn [canon]; try exact H; try (cbn [wf_id] in H; apply wf_smallest; lia).
+  destruct g as [g|]; exact H.
 Qed.
 
 (* ====================== ExpandedNodeID flags in the mask ====================== *)
@@ -584,4 +586,36 @@ Lemma view_set_flags : forall f r, N.land f 15 = 0 -> view (set_flags f r) = vie
 Proof.
   intros f r Hf. unfold view, set_flags. cbn [r_mask r_ns r_nid r_bid r_gid].
   rewrite N.land_lor_distr_l, Hf, N.lor_0_r. reflexivity.
+Qed.
+
+(* ====================== what NewGUIDNodeID produces is well-formed ====================== *)
+Lemma be_val_lt : forall l, be_val l < 256 ^ N.of_nat (length l).
+Proof.
+  induction l as [|b l IH] using rev_ind; [cbn; lia|].
+  rewrite be_val_app1, app_length. cbn [length]. rewrite Nat.add_1_r, Nat2N.inj_succ, N.pow_succ_r'. pose proof (to_N_lt b) as Hb.
+  set (P := 256 ^ N.of_nat (length l)) in *. clearbody P. nia.
+Qed.
+
+Lemma be_val_firstn_lt : forall k l, be_val (firstn k l) < 256 ^ N.of_nat k.
+Proof.
+  intros k l. eapply N.lt_le_trans; [apply be_val_lt|]. apply N.pow_le_mono_r; [lia|]. pose proof (firstn_le_length k l). lia.
+Qed.
+
+Lemma new_guid_wf : forall s g, new_guid s = Some g -> wf_guid g = true.
+Proof.
+  intros s g H. unfold new_guid in H. destruct (unhex (remove_dashes s)) as [b|]; [|discriminate].
+  destruct (Nat.eqb (length b) 16); [|discriminate].
+  assert (E1 : g1 g = be_val (firstn 4 b)) by (injection H as <-; reflexivity).
+  assert (E2 : g2 g = be_val (firstn 2 (skipn 4 b))) by (injection H as <-; reflexivity).
+  assert (E3 : g3 g = be_val (firstn 2 (skipn 6 b))) by (injection H as <-; reflexivity).
+  pose proof (be_val_firstn_lt 4 b) as A. pose proof (be_val_firstn_lt 2 (skipn 4 b)) as B. pose proof (be_val_firstn_lt 2 (skipn 6 b)) as C.
+  change (256 ^ N.of_nat 4) with 4294967296 in A. change (256 ^ N.of_nat 2) with 65536 in B, C.
+  unfold wf_guid. rewrite E1, E2, E3. apply N.ltb_lt in A, B, C. rewrite A, B, C. reflexivity.
+Qed.
+
+Lemma new_guid_nodeid_wf : forall ns s, ns < 65536 -> wf_id (new_guid_nodeid ns s) = true.
+Proof.
+  intros ns s Hns. unfold new_guid_nodeid. cbn [wf_id]. destruct (new_guid s) as [g|] eqn:E.
+  - rewrite (new_guid_wf _ _ E). lia.
+  - cbn. lia.
 Qed.
